@@ -412,6 +412,10 @@ func (zp *ZoneParser) Next() (RR, bool) {
 			switch l, _ := zp.c.Next(); l.value {
 			case zBlank:
 				l, _ := zp.c.Next()
+				if l.err {
+					// zlexer spotted an error already
+					return zp.setParseError(l.token, l)
+				}
 				// See $ORIGIN: the origin may look like a type or class mnemonic.
 				if l.value == zString || l.value == zRrtpe || l.value == zClass {
 					name, ok := toAbsoluteName(l.token, zp.origin)
